@@ -482,3 +482,13 @@ Definition parse_bytes (K : cfg) (w : bytes) : outcome :=
 
 Definition oj_cfg (k : kind) (one : bool) : cfg :=
   mkCfg OjMaps.tab OjMaps.fin (fun _ => OjMaps.data_escByteMap) k one.
+
+(* ParseReader / ValidateReader / Tokenizer.Load: the BOM is looked for in the first Read
+   result only, and only if that result is longer than 3 bytes *)
+Definition parse_chunks (K : cfg) (cs : list bytes) : outcome :=
+  match cs with
+  | (b0 :: b1 :: b2 :: b3 :: r) :: cs' =>
+      if beqb b0 xef && beqb b1 xbb && beqb b2 xbf then run_all_chunks K ((b3 :: r) :: cs')
+      else run_all_chunks K cs
+  | _ => run_all_chunks K cs
+  end.
